@@ -1,5 +1,6 @@
 (* Span-layer driver: runs the extracted model on span-cases (harness/FORMAT-span.md). *)
 open Model
+type string = String.t
 open Common
 
 let buf = Buffer.create 65536
